@@ -144,30 +144,36 @@ def lookupLast {α : Type} : List (Str × α) → Str → Option α
     | some x => some x
     | none => if k' == k then some v else none
 
+/-- the body of `for field_name, field in field_defs.items()` of the input-object branch;
+`subs` are the validators of the provided entries' values. `guardFields = true` is the repaired
+code (skip a provided field whose declared type is not an input type). -/
+def vObjField (s : RawSchema) (guardFields : Bool)
+    (subs : List (Str × (TRef → Out Unit (List VErr)))) (fd : InputValue) : Out Unit (List VErr) :=
+  match lookupLast subs fd.name with
+  | none => .ok (if fd.isRequired then [[]] else [])
+  | some g =>
+    if guardFields && !s.isInputType fd.type then .ok []
+    else Out.mapOk (fun es => es.map (fun p => Seg.key fd.name :: p)) (g fd.type)
+
+/-- "Ensure every provided field is defined": one error per unknown entry -/
+def vObjUnknown (fields : List InputValue) (entries : List (Str × Bool)) : List VErr :=
+  entries.flatMap (fun e => if fields.any (fun fd => fd.name == e.1) then [] else [[]])
+
+/-- the OneOf part: exactly one known entry, and it is not null -/
+def vObjOneOf (fields : List InputValue) (oneOf : Bool) (entries : List (Str × Bool)) : List VErr :=
+  if oneOf then
+    match entries.filter (fun e => fields.any (fun fd => fd.name == e.1)) with
+    | [e] => if e.2 then [[Seg.key e.1]] else []
+    | _ => [[]]
+  else []
+
 /-- The input-object branch, given for every provided entry the validator of its value
-(`subs`, in literal order) and the entries' names and null-ness (`entries`).
-`guardFields = true` is the repaired code (skip a provided field whose declared type is not an
-input type). -/
+(`subs`, in literal order) and the entries' names and null-ness (`entries`). -/
 def vObject (s : RawSchema) (guardFields : Bool) (fields : List InputValue) (oneOf : Bool)
     (entries : List (Str × Bool)) (subs : List (Str × (TRef → Out Unit (List VErr)))) :
     Out Unit (List VErr) :=
-  match outFlatMap (fun (fd : InputValue) =>
-      match lookupLast subs fd.name with
-      | none => .ok (if fd.isRequired then [[]] else [])
-      | some g =>
-        if guardFields && !s.isInputType fd.type then .ok []
-        else Out.mapOk (fun es => es.map (fun p => Seg.key fd.name :: p)) (g fd.type)) fields with
-  | .ok part1 =>
-    let defined := fun (e : Str × Bool) => fields.any (fun fd => fd.name == e.1)
-    let part2 : List VErr := entries.flatMap (fun e => if defined e then [] else [[]])
-    let known := entries.filter defined
-    let part3 : List VErr :=
-      if oneOf then
-        match known with
-        | [e] => if e.2 then [[Seg.key e.1]] else []
-        | _ => [[]]
-      else []
-    .ok (part1 ++ part2 ++ part3)
+  match outFlatMap (vObjField s guardFields subs) fields with
+  | .ok part1 => .ok (part1 ++ vObjUnknown fields entries ++ vObjOneOf fields oneOf entries)
   | .err u => .err u
   | .crash c => .crash c
 
@@ -341,6 +347,22 @@ def validateAncestors (s : RawSchema) (tn : Str) (tIfaces : List Str) (iface : S
     else if tr == tn then [(⟨.implementsCircular, bar tn iface⟩ : Err)]
     else [(⟨.missingTransitive, bar (bar tn tr) iface⟩ : Err)])
 
+/-- the body of `for arg_name, iface_arg in iface_field.args.items()`: the implementing field
+has the argument, with an equal type -/
+def validateIfaceArg (tn : Str) (ic : Str) (tfArgs : List InputValue) (ia : InputValue) : List Err :=
+  match tfArgs.find? (fun a => a.name == ia.name) with
+  | none => [⟨.ifaceArgMissing, bar (argCoord ic ia.name) tn⟩]
+  | some ta =>
+    if !isEqualType ia.type ta.type then [⟨.ifaceArgType, bar (argCoord ic ia.name) tn⟩] else []
+
+/-- the body of `for arg_name, type_arg in type_field.args.items()`: an additional argument
+must not be required -/
+def validateExtraArg (tn iface : Str) (tfName : Str) (ifldArgs : List InputValue) (ta : InputValue) :
+    List Err :=
+  if (ifldArgs.find? (fun a => a.name == ta.name)).isNone && ta.isRequired then
+    [⟨.extraRequiredArg, bar (argCoord (dot tn tfName) ta.name) iface⟩]
+  else []
+
 /-- the body of `for field_name, iface_field in iface_fields.items()` -/
 def validateIfaceField (s : RawSchema) (tn iface : Str) (tFields : List Field) (ifld : Field) :
     List Err :=
@@ -349,16 +371,8 @@ def validateIfaceField (s : RawSchema) (tn iface : Str) (tFields : List Field) (
   | none => [⟨.ifaceFieldMissing, bar ic tn⟩]
   | some tf =>
     (if !isTypeSubTypeOf s tf.type ifld.type then [(⟨.ifaceFieldType, bar ic tn⟩ : Err)] else [])
-    ++ ifld.args.flatMap (fun ia =>
-        match tf.args.find? (fun a => a.name == ia.name) with
-        | none => [(⟨.ifaceArgMissing, bar (argCoord ic ia.name) tn⟩ : Err)]
-        | some ta =>
-          if !isEqualType ia.type ta.type then [(⟨.ifaceArgType, bar (argCoord ic ia.name) tn⟩ : Err)]
-          else [])
-    ++ tf.args.flatMap (fun ta =>
-        if (ifld.args.find? (fun a => a.name == ta.name)).isNone && ta.isRequired then
-          [(⟨.extraRequiredArg, bar (argCoord (dot tn tf.name) ta.name) iface⟩ : Err)]
-        else [])
+    ++ ifld.args.flatMap (validateIfaceArg tn ic tf.args)
+    ++ tf.args.flatMap (validateExtraArg tn iface tf.name ifld.args)
     ++ (if tf.deprecated && !ifld.deprecated then [(⟨.implDeprecated, bar ic tn⟩ : Err)] else [])
 
 /-- `validate_type_implements_interface` (the interface is known to be an interface type) -/
